@@ -8,9 +8,9 @@ TRUST = " Trusted: Kani MIR->GOTO translation, CBMC, CaDiCaL; stated stubs/model
 CLAIMED = {
  "C01": dict(
    category="model_checking",
-   text="Per-codec SAT queries over fully symbolic byte buffers: every accepted byte string of VarInt, integers, hashes, OutPoint, Sequence, LockTime/Height/Time, confidential Asset/Value/Nonce, Script and TxOut (sharded by layout class, all truncations) re-encodes to exactly the consumed bytes with reported length == bytes written == bytes consumed; value-side round trip for VarInt and explicit confidential values; deserialize() == partial + all-consumed; generic Vec<T> framing for T=u32 with counts <= 2. Inside these bounds the verdict covers all 2^(8N) inputs, including the non-minimal and boundary encodings no vector exercises.",
+   text="Per-codec SAT queries over fully symbolic byte buffers: every accepted byte string of VarInt, integers, hashes, OutPoint, Sequence, LockTime/Height/Time, confidential Asset/Value/Nonce, AssetIssuance, Script, TxOut and TxIn (sharded by layout class, all truncations; TxIn flag bits vs the all-ones index) re-encodes to exactly the consumed bytes with reported length == bytes written == bytes consumed; value-side round trip for VarInt, explicit confidential values and TxIn (incl. the all-ones index with any txid); header-kind predicate is_dynafed(); deserialize() == partial + all-consumed; generic Vec<T> framing for T=u32 with counts <= 2. Inside these bounds the verdict covers all 2^(8N) inputs, including the non-minimal and boundary encodings no vector exercises.",
    design_ref="DESIGN.md §2 C01 and §7 (what was built)",
-   note="NARROWING: TxIn, witnesses, Transaction, BlockHeader, Block and dynafed::Params decoders are NOT decided (Vec<Vec<u8>>/Vec<TxIn> decoding exhausts CBMC: see DESIGN §7); they are covered only by the composition argument over the decided component codecs. libsecp parse/serialize replaced by contract models (curve validity = arbitrary deterministic predicate)." + TRUST,
+   note="NARROWING: witnesses, Transaction, BlockHeader, Block and dynafed::Params codecs are NOT decided (Vec<Vec<u8>>/Vec<TxIn> decoding exhausts CBMC: see DESIGN §7); they are covered only by the composition argument over the decided component codecs. libsecp parse/serialize replaced by contract models (curve validity = arbitrary deterministic predicate)." + TRUST,
    technique=TECH),
  "C03": dict(
    category="model_checking",
